@@ -49,12 +49,21 @@ func init() {
 		}
 		return mkProfile(m)
 	}
+	io := map[string]int{"rt": 0, "wfault": 0, "trunc": 0, "rfault": 0, "corrupt": 0, "mustread": 0, "freeze": 0, "unmap": 0, "dense": 0, "cur-open": 0, "cur-step": 0, "iterfn": 0}
+	for k, v := range io {
+		base[k] = v
+	}
 	profiles["default"] = with(nil)
+	profiles["C04"] = with(map[string]int{"cur-open": 14, "cur-step": 45, "iterfn": 14, "runopt": 6, "binop": 2, "ibinop": 2, "agg": 0, "andany": 0, "flipstatic": 0, "addoffset": 0})
+	profiles["C05"] = with(map[string]int{"rt": 30, "wfault": 8, "runopt": 8, "agg": 1, "unmap": 2})
+	profiles["C10"] = with(map[string]int{"trunc": 10, "corrupt": 45, "rfault": 4, "mustread": 5, "rt": 3, "runopt": 8, "unmap": 1})
+	profiles["C13"] = with(map[string]int{"freeze": 30, "runopt": 8, "unmap": 3, "gc": 6})
+	profiles["C08"] = with(map[string]int{"rt": 14, "freeze": 10, "unmap": 8, "detach": 6, "gc": 5, "dense": 3, "clone": 8, "binop": 10, "ibinop": 10, "agg": 5, "setcow": 1})
 	profiles["C01"] = with(map[string]int{"binop": 20, "ibinop": 20, "card": 8, "runopt": 6})
 	profiles["C02"] = with(map[string]int{"add": 12, "remove": 10, "addmany": 14, "addrange": 14, "removerange": 12, "flip": 10, "binop": 2, "ibinop": 2, "agg": 1})
 	profiles["C07"] = with(map[string]int{"clone": 8, "setcow": 8, "binop": 10, "ibinop": 10, "agg": 10, "flipstatic": 4, "addoffset": 4, "andany": 3})
 	profiles["C09"] = with(map[string]int{"runopt": 8, "agg": 8, "andany": 5, "addoffset": 6, "flipstatic": 5, "removerange": 10, "flip": 8})
 	profiles["C14"] = profiles["C09"]
 	profiles["C11"] = with(map[string]int{"agg": 25, "andany": 8, "runopt": 5})
-	profiles["C16"] = with(map[string]int{"flipstatic": 15, "addoffset": 20, "runopt": 6})
+	profiles["C16"] = with(map[string]int{"flipstatic": 15, "addoffset": 20, "runopt": 6, "dense": 14, "unmap": 2})
 }
